@@ -1,10 +1,76 @@
 /-
-  Drive/Sched.lean — driver suite `sched` (stub; to be implemented).
+  Drive/Sched.lean — driver suite `sched`: run the interleaving model (Sem/Sched.lean) on the validation calls and the
+  event-level schedules the harness observed on the real code.
+  in : {"calls": [call…], "init": [[cell, name]…], "schedules": [[tid…]…]}
+       call = {"k":"homog","cell":c,"name":n,"initW":b,"elems":[[v,ok]…]} | {"k":"set","cell":c,"name":n,"elems":…}
+            | {"k":"map","kc":c,"vc":c,"name":n,"entries":[[[k,ok],[v,ok]]…]} | {"k":"pos","base":c,"name":n,"n":k,"elems":…}
+  out: {"progs": [[step letter…]…], "seq": [outcome…], "runs": [[outcome|null…]…], "conflictFree": bool,
+        "tableKeys": [[key, safe]…]}
 -/
-import TypedpyModel.Drive.Wire
+import Lean.Data.Json
+import TypedpyModel.Sem.Sched
 namespace Typedpy.Drive.Sched
 open Lean (Json)
+open Typedpy.Sched
 
-def run (_j : Json) : Except String Json := .error "suite sched not implemented"
+def elemOfJson (j : Json) : Except String (Int × Bool) := do
+  let a ← j.getArr?
+  if a.size != 2 then throw "elem: expected [v, ok]"
+  pure ((← a[0]!.getInt?), (← a[1]!.getBool?))
+
+def elemsOf (j : Json) (k : String) : Except String (List (Int × Bool)) := do
+  (← (← j.getObjVal? k).getArr?).toList.mapM elemOfJson
+
+def callOfJson (j : Json) : Except String Call := do
+  let k ← (← j.getObjVal? "k").getStr?
+  let name ← (← j.getObjVal? "name").getStr?
+  match k with
+  | "homog" =>
+    pure (.homog (← (← j.getObjVal? "cell").getNat?) name (← (← j.getObjVal? "initW").getBool?) (← elemsOf j "elems"))
+  | "set" => pure (.set (← (← j.getObjVal? "cell").getNat?) name (← elemsOf j "elems"))
+  | "map" =>
+    let es ← (← (← j.getObjVal? "entries").getArr?).toList.mapM fun e => do
+      let a ← e.getArr?
+      if a.size != 2 then throw "entry: expected [[k,ok],[v,ok]]"
+      pure ((← elemOfJson a[0]!), (← elemOfJson a[1]!))
+    pure (.map (← (← j.getObjVal? "kc").getNat?) (← (← j.getObjVal? "vc").getNat?) name es)
+  | "pos" =>
+    pure (.pos (← (← j.getObjVal? "base").getNat?) name (← (← j.getObjVal? "n").getNat?) (← elemsOf j "elems"))
+  | s => throw s!"unknown call kind {s}"
+
+def stepLetter : Step → String
+  | .writeShared c n => s!"W{c}={n}"
+  | .newTemp => "N"
+  | .storeTemp c _ _ => s!"S{c}"
+  | .loadTemp c => s!"R{c}"
+  | .emit _ => "E"
+
+def outcomeToJson : Option Outcome → Json
+  | none => .null
+  | some (.ok out) => Json.mkObj [("ok", Json.arr (out.map fun i => Json.num (Lean.JsonNumber.fromInt i)).toArray)]
+  | some (.raised (.invalid n)) => Json.mkObj [("invalid", .str n)]
+  | some (.raised (.missing n)) => Json.mkObj [("missing", .str n)]
+
+def run (j : Json) : Except String Json := do
+  let calls ← (← (← j.getObjVal? "calls").getArr?).toList.mapM callOfJson
+  let init ← match j.getObjVal? "init" with
+    | .ok x => (← x.getArr?).toList.mapM fun p => do
+        let a ← p.getArr?
+        if a.size != 2 then throw "init: expected [cell, name]"
+        pure ((← a[0]!.getNat?), (← a[1]!.getStr?))
+    | .error _ => pure []
+  let scheds ← (← (← j.getObjVal? "schedules").getArr?).toList.mapM fun s => do
+    (← s.getArr?).toList.mapM fun t => t.getNat?
+  let progs := calls.map Call.prog
+  let sh := Shared.ofList init
+  let n := progs.length
+  let runs := scheds.map fun s =>
+    let cfg := Typedpy.Sched.run (Cfg.init sh progs) s
+    Json.arr ((List.range n).map fun i => outcomeToJson (resultAt cfg i)).toArray
+  pure (Json.mkObj [
+    ("progs", Json.arr (progs.map fun p => Json.arr (p.map fun s => Json.str (stepLetter s)).toArray).toArray),
+    ("seq", Json.arr (progs.map fun p => outcomeToJson (sequentialResult sh p)).toArray),
+    ("runs", Json.arr runs.toArray),
+    ("conflictFree", .bool (conflictFreeB progs))])
 
 end Typedpy.Drive.Sched
